@@ -294,6 +294,10 @@ func init() {
 		p.sched.preempt = int(p.concInt(args[1], "preemptions"))
 		return nil
 	})
+	H("SymbolicLocks", func(fr *frame, args []value) value {
+		fr.i.path.sched.lockPoints = true
+		return nil
+	})
 	H("SymbolicMapOrder", func(fr *frame, args []value) value {
 		p := fr.i.path
 		p.sched.mapOrder = int(p.concInt(args[1], "map order budget"))
